@@ -733,6 +733,65 @@ func c11Run(c *core.Ctx) {
 		}
 	})
 	c11Long(c)
+	c11Assigned(c, st)
+}
+
+// c11Assigned: NR / FNR assigned by the program or by an operand (a number, a
+// numeric string from input, a string): counting continues from the assigned
+// value. Reference evaluator only.
+var c11AssignedProgs = []struct {
+	src  string
+	args []string
+}{
+	{`{ print FILENAME, NR, FNR }`, []string{"A", "NR=100", "B"}},
+	{`{ print FILENAME, NR, FNR }`, []string{"A", "FNR=7", "NR=3", "B", "A"}},
+	{`{ print FILENAME, NR, FNR }`, []string{"NR=5", "A", "B"}},
+	{`NR == 1 { NR = $1 + 6; FNR = $1 } { print NR, FNR } END { print NR, FNR }`, []string{"A", "B"}},
+	{`FNR == 1 { NR = substr($1, 2); FNR = substr($1, 2) "" } { print NR, FNR, $0 } END { print NR }`, []string{"A", "B"}},
+	{`FNR == 2 { split("40 41", p); NR = p[1]; FNR = p[2] } { print NR, FNR }`, []string{"A", "B"}},
+	{`NR == 1 { getline NR < "G"; getline FNR < "G" } { print NR, FNR } END { print NR }`, []string{"A", "B"}},
+	{`BEGIN { NR = 10; FNR = "20" } { print NR, FNR } END { print NR, FNR }`, []string{"A", "B"}},
+	{`{ r = (getline v); print r, v, NR, FNR }`, []string{"A", "NR=50", "B"}},
+	{`NR == 2 { NR = "x"; FNR = "" } { print NR, FNR }`, []string{"A", "B"}},
+}
+
+func c11Assigned(c *core.Ctx, st *c11State) {
+	for i, ap := range c11AssignedProgs {
+		if !c.Mine() || c.Expired() {
+			continue
+		}
+		for fix := range c11Fixtures {
+			cs := c11Case{Family: "assigned", Name: fmt.Sprintf("a%d", i), Src: ap.src, Args: ap.args, Fix: fix}
+			c11AssignedEval(c, st, cs)
+		}
+	}
+}
+
+func c11AssignedEval(c *core.Ctx, st *c11State, cs c11Case) {
+	prog, err, pn := awk.Parse(cs.Src, nil)
+	if err != nil || pn != "" {
+		panic("C11 harness: program rejected: " + cs.Src)
+	}
+	fx := c11Fixtures[cs.Fix]
+	st.useFixture(cs.Fix)
+	c.Add("states", 1)
+	impl := runImpl(prog, fx.Stdin, cs.Args, "", false, 200000)
+	c.Eval(1)
+	c.Add("transitions", 1)
+	if impl.Panic != "" || impl.Budget {
+		c.Fail("panic-or-runaway:assigned", cs, firstLine(impl.Panic))
+		return
+	}
+	c.Outcome(impl.String())
+	ref, unsup := c11Ref(prog, fx, cs.Args)
+	if unsup != "" {
+		c.Add("ref_unsupported", 1)
+		return
+	}
+	c.Add("traces_validated_against_impl", 1)
+	if ok, kind := sameObs(impl, ref, false); !ok {
+		c.Fail("ref-mismatch:assigned:"+kind, cs, "impl: "+trunc(impl.String(), 400)+" || model: "+trunc(ref.String(), 400))
+	}
 }
 
 // c11Long: the main-loop bookkeeping over 1300 records (next / nextfile /
@@ -787,6 +846,10 @@ func c11Replay(c *core.Ctx, raw json.RawMessage) {
 	if err := json.Unmarshal(raw, &cs); err != nil {
 		panic(err)
 	}
+	if cs.Family == "assigned" {
+		c11AssignedEval(c, c11NewState(c), cs)
+		return
+	}
 	if cs.Family == "long" {
 		c11LongEval(c, cs, progenum.LongInput(1300))
 		return
@@ -806,7 +869,7 @@ func init() {
 		Level: "model_checking",
 		Rule: "complete enumeration of generated programs {BEGIN in none/getline/getline v/ARGV[1] edit/ARGC edit/ARGV append/operand list replaced by split() directly and through an array parameter/ARGV[1] deleted/exit} x {one or two rules; patterns: none, expression, regex, NR ranges closing later/on the same record/never, range on field values} x " +
 			"{actions of <= 2 operations from getline, getline v, getline < f, getline v < f, next, nextfile, exit k, each also inside a function (getline variable = local) and inside a loop (getline variable = array element)} x {END in trace/exit/getline}, in full-trace and lean-trace spelling, " +
-			"x operand lists (family ops1: every list of <= 3, thorough <= 4, operands from A, B, empty file, -, \"\", v=1, FS=,, missing file; other families: 4 to 16 fixed lists) x file fixtures with 0-3 records; plus a family of long runs (1300 records; next / nextfile / exit / getline / ranges inside functions, recursion and loops; reference evaluator only); " +
+			"x operand lists (family ops1: every list of <= 3, thorough <= 4, operands from A, B, empty file, -, \"\", v=1, FS=,, missing file; other families: 4 to 16 fixed lists) x file fixtures with 0-3 records; plus 10 programs x 3 fixtures in which NR / FNR are assigned (number, numeric string from input / operand / split / getline, string) and counting must continue from there; plus a family of long runs (1300 records; next / nextfile / exit / getline / ranges inside functions, recursion and loops; reference evaluator only); " +
 			"state = one program, transition = one execution on the real interpreter with real files; every execution is compared with the reference evaluator (stdout, exit status, error/no error) and its trace is checked against invariants derived from the statement; distinct = distinct observations",
 		Assumptions: []string{
 			"FILENAME before any named file was opened and while standard input is read is not prescribed: \"\" and \"-\" are treated as equal",
